@@ -15,11 +15,24 @@ def parseInts (s : String) : Option (Option (List Int)) :=
   else if s.isEmpty then some (some [])
   else do
     let parts ← (s.splitOn ",").mapM fun t =>
+      match t.splitOn "^" with
+      | [a, m, k] => do
+        -- arithmetic run `a^m^k`: the k values (a + i) mod m, i = 0 … k-1 (neighbours differ)
+        let a ← a.toNat?
+        let m ← m.toNat?
+        let k ← k.toNat?
+        pure ((List.range k).map fun i => (((a + i) % m : Nat) : Int))
+      | _ =>
       match t.splitOn "*" with
       | [v] => do pure [← v.toInt?]
       | [v, k] => do pure (List.replicate (← k.toNat?) (← v.toInt?))
       | _ => none
     pure (some parts.flatten)
+
+/-- digest of a long int16 vector for the transport: length, polynomial hash, first and last value -/
+def digest (l : List Int) : String :=
+  let h := l.foldl (fun (h : Nat) v => (h * 31 + (v % 65536).toNat + 1) % 2147483647) 7
+  s!"{l.length}/{h}/{l.headD 0}/{l.getLastD 0}"
 
 def parseRect (t : String) : Option Rect :=
   match t.splitOn ":" with
@@ -202,6 +215,19 @@ def handle (op : String) (fs : List (String × String)) : String :=
       let p := Caret.norm rise run
       showWith (encode info p.1 p.2) (fun r =>
         (toHex r.1 ++ ":" ++ (match r.2 with | some b => toHex b | none => "-")))
+    | _, _, _ => "bad-case"
+  else if op == "metrics.hmtxrt" then
+    -- the property itself: Decode (Encode info) gives back every width and bearing (digests), and the
+    -- table uses the least numberOfHMetrics
+    match (getField fs "w").bind parseInts, (getField fs "ext").bind parseRects,
+          (getField fs "lsb").bind parseInts with
+    | some (some ws), some es, some lsb =>
+      match (match lsb, es with
+             | some l, _ => some l
+             | none, some e => some (e.map (·.llx))
+             | none, none => none) with
+      | some ls => s!"k={Spec.leastNumberOfHMetrics ws};w={digest ws};lsb={digest ls}"
+      | none => "n/a"
     | _, _, _ => "bad-case"
   else if op == "metrics.hmtxdec" then
     match getHex fs "hhea", getHexOpt fs "hmtx" with
